@@ -138,6 +138,11 @@ theorem default_types_none (strp : Bool) (nm : PStr) (kids : List Node) :
   rw [textOfL_congr _ isMain (fun c => by simp only [Types.keeps]; exact main_types_table c)]
 
 example : containers.lookup (ofS "div") = none := by decide
+example : containers.lookup (ofS "template") = some .templateString := by decide
+example : allStringsImpl main true .dflt (.tag (ofS "template") (interestingFor main containers (ofS "template"))
+    [.str .templateString (ofS " t "), .tag (ofS "b") (.many main) [.str .templateString (ofS "u"), .str .comment (ofS "c")]]) =
+    [ofS "t", ofS "u"] := by
+  rw [default_types_container true containers (ofS "template") .templateString _ (by decide)]; decide
 example : allStringsImpl main false .dflt (.tag (ofS "script") (interestingFor main containers (ofS "script"))
     [.str .script (ofS "s"), .str .comment (ofS "c"), .str .navigableString (ofS "n")]) = [ofS "s"] := by
   rw [allStrings_eq_spec]; decide
@@ -189,6 +194,18 @@ theorem only_special_yields_nothing (strp : Bool) (cont : List (PStr × StrClass
 example : allStringsImpl main false .dflt (.tag (ofS "div") (interestingFor main containers (ofS "div"))
     [.tag (ofS "script") (.many [.script]) [.str .script (ofS "s")], .str .comment (ofS "c"), .str .doctype (ofS "html")]) = [] := by
   rw [allStrings_eq_spec]; decide
+/-- the hypothesis of `only_special_yields_nothing` on a concrete nested forest -/
+example : ∀ c v, OccursL [.tag (ofS "script") (.many [.script]) [.str .script (ofS "s")], .str .comment (ofS "c")] c v →
+    c ≠ .navigableString ∧ c ≠ .cData := by
+  intro c v h
+  cases h with
+  | head h => cases h with
+    | inTag h => cases h with
+      | head h => cases h; decide
+      | tail h => cases h
+  | tail h => cases h with
+    | head h => cases h; decide
+    | tail h => cases h
 example : pruneL isMain [.str .comment (ofS "c"), .tag (ofS "p") .none [.str .script (ofS "s"), .str .cData (ofS "x")]]
     = [.tag (ofS "p") .none [.str .cData (ofS "x")]] := by
   simp [pruneL, prune, isMain]
@@ -311,12 +328,20 @@ theorem strip_drops_empties_str (mn : List StrClass) (types : TypesArg) (c : Str
 theorem strip_fixed_point (s : PStr) (hh : ∀ c, s.head? = some c → isSpace c = false)
     (hl : ∀ c, s.getLast? = some c → isSpace c = false) : strip s = s := strip_fixed s hh hl
 
+example : strip (ofS "a b") = ofS "a b" := strip_fixed_point _ (by decide) (by decide)
 example : strip (ofS " \t a b\n") = ofS "a b" := by decide
 example : strip [0x3000, 0xA0, 120, 0x200B, 0x2028] = [120, 0x200B] := by decide
 example : strippedStringsImpl main demo = [ofS "a", ofS "x", ofS "y"] := by
   rw [strippedStringsImpl, demo, allStrings_eq_spec]; decide
 example : ofS "a" ∈ allStringsImpl main true .dflt demo := by
   rw [demo, allStrings_eq_spec]; decide
+
+/-- Whole-table facts about the generated `isspace` table: strictly increasing (so duplicate-free), every entry a
+    code point, and below 128 exactly TAB, LF, VT, FF, CR, FS, GS, RS, US and SPACE. -/
+theorem whitespace_table :
+    BS.Gen.pyWhitespace.Pairwise (· < ·) ∧ (BS.Gen.pyWhitespace.all (· < 0x110000)) = true ∧
+    ((List.range 128).all fun c => isSpace c == [9, 10, 11, 12, 13, 28, 29, 30, 31, 32].contains c) = true := by
+  refine ⟨by decide +kernel, by decide +kernel, by decide +kernel⟩
 
 /-! ## 7. `.string` -/
 
@@ -533,6 +558,16 @@ example : (demoHeap.toOption.bind fun h => (getTextHeap main h demoLabels (ofS "
 example : (demoHeap.toOption.map fun h => stringPropHeap h h.cap 0) = some none := by decide +kernel
 example : (run (Heap.init [.soup, .tag, .tag, .str]) [.append 0 (.node 1), .append 1 (.node 2), .append 2 (.node 3)]).toOption.map
     (fun h => stringPropHeap h h.cap 0) = some (some 3) := by decide +kernel
+example : ∀ op ∈ ([.append 1 (.node 5), .insert 1 0 [.plain [7]], .extract 2, .setString 3 .pre [9]] : List Op), op.kindsOK := by
+  intro op h
+  simp only [List.mem_cons, List.mem_nil_iff, or_false] at h
+  rcases h with rfl | rfl | rfl | rfl <;> simp [Op.kindsOK]
+/-- the demo heap is consistent (hypothesis `Good` of the heap theorems), by C01's history theorem -/
+example : ∀ h, demoHeap = .ok h → Good h := fun h hh =>
+  (BS.Props.C01.history_consistent _ _ h (BS.Props.C01.init_consistent _)
+    (by intro op hop
+        simp only [List.mem_cons, List.mem_nil_iff, or_false] at hop
+        rcases hop with rfl | rfl | rfl | rfl | rfl | rfl | rfl | rfl | rfl <;> simp [Op.kindsOK]) hh).1
 /-- a parsed start (`<a>x<b>y</b></a>z`) edited by a history: the hypothesis of `parsed_then_edited_text` is satisfiable -/
 example : (run (BS.ParseLink.prun BS.ParseLink.PSt.init [.newTag, .newStr, .newTag, .newStr, .pop, .pop, .newStr]).heap
     [.append 1 (.node 5), .insert 1 0 [.plain [7]], .extract 2, .append 3 (.node 2)]).toOption.map
@@ -616,6 +651,8 @@ theorem no_container_open (cont : List (PStr × StrClass)) (names : List PStr)
     stringContainer [] cont (containerStackTop cont names) none = .navigableString := by
   rw [containerStackTop_none cont names h]; rfl
 
+example : stringContainer [] containers (containerStackTop containers [ofS "b", ofS "p"]) none = .navigableString :=
+  no_container_open containers _ (by decide)
 example : stringContainer [] containers (containerStackTop containers [ofS "b", ofS "rt", ofS "p", ofS "template", ofS "div"])
     none = .rubyTextString := by decide
 example : (∀ g ∈ [ofS "b"], containers.lookup g = none) ∧ containers.lookup (ofS "rt") = some .rubyTextString := by decide
